@@ -76,6 +76,10 @@ func (i *InMemoryStore) GetSession(fseid uint64) (PFCPSession, bool) {
 		return PFCPSession{}, false
 	}
 
+	// The caller edits the rule lists while it processes a request; what is stored
+	// may only change through PutSession, so hand out copies of the lists.
+	session.PacketForwardingRules = session.PacketForwardingRules.clone()
+
 	logger.PfcpLog.With("session", session).Debugln("Got PFCP session from local store")
 
 	return session, ok
